@@ -32,11 +32,18 @@ NAMES = ["A", "a", "B", "", "A:1", "1", "count", "Vsh"]
 PROBES = ["A", "a", "B", "b", "", "UNKNOWN", "unknown", "1", "A:1", "a:1", "A:2", "Z", "count", "COUNT", "Vsh", "VSH", "vsh"]
 DEPTH = {"quick": 3, "thorough": 5}
 ROOTS = ["empty", "empty-ci", "read-preserve", "read-upper", "read-upper-emptyP", "read-lower-emptyP", "read-preserve-emptyP",
-         "read-upper-pickled", "read-upper-deepcopied", "read-curves", "read-curves-pickled"]
+         "read-upper-pickled", "read-upper-deepcopied", "read-curves", "read-curves-pickled",
+         # sections of a file whose titles follow the LAS 3.0 style (~Log_Parameter -> params, ~Log_Definition -> curves, a custom
+         # ~Tops_Definition section), read with case normalisation
+         "read3-upper-params", "read3-lower-curves", "read3-upper-custom", "read3-preserve-params"]
 # whether the section compares case-insensitively follows from how it was made, not from the object's own flag
 ROOT_CI = {"empty": False, "empty-ci": True, "read-preserve": False, "read-upper": True,
            "read-upper-emptyP": True, "read-lower-emptyP": True, "read-preserve-emptyP": False,
-           "read-upper-pickled": True, "read-upper-deepcopied": True, "read-curves": True, "read-curves-pickled": True}
+           "read-upper-pickled": True, "read-upper-deepcopied": True, "read-curves": True, "read-curves-pickled": True,
+           "read3-upper-params": True, "read3-lower-curves": True, "read3-upper-custom": True, "read3-preserve-params": False}
+LAS3_FILE = ("~Version\nVERS. 3.0 : v\nWRAP. NO : w\nDLM. COMMA : d\n~Well\nSTRT.M 1 : s\nSTOP.M 2 : s\nSTEP.M 1 : s\nNULL. -999.25 : n\n"
+             "~Log_Parameter\nA.U 1 : first\na.U 2 : second\nB. 3 : third\n~Log_Definition\nD.M : depth\nA. : a one\nb. : b\n"
+             "~Tops_Definition\nA. : top a\nVsh. : top vsh\n~Log_Data | Log_Definition\n1,2,3\n2,3,4\n")
 EMPTY_P_FILE = ("~V\nVERS. 2.0 :\nWRAP. NO :\n~W\nSTRT.M 1 :\nSTOP.M 2 :\nSTEP.M 1 :\nNULL. -999.25 :\n~P\n# nothing here\n\n"
                 "~C\nD.M : depth\n~A\n1\n2\n")
 LIST_ATTRS = set(dir(list)) | set(dir(SectionItems))
@@ -57,6 +64,7 @@ def alphabet(n):
 
 
 _EMPTY = {}
+_READ3 = {}
 
 
 def _root(root):
@@ -68,6 +76,25 @@ def _root(root):
         sec = SectionItems()
         sec.mnemonic_transforms = _EMPTY[root]
         return sec, None, HeaderItem
+    if root.startswith("read3-"):
+        # read once per process, then cloned through the public constructors (as C13 does for its read roots)
+        if root not in _READ3:
+            import lasio
+            _, case, which = root.split("-")
+            las = lasio.read(LAS3_FILE, mnemonic_case=case)
+            sec0 = las.params if which == "params" else (las.curves if which == "curves" else las.sections["Tops_Definition"])
+            _READ3[root] = (bool(sec0.mnemonic_transforms),
+                            [(type(i), i.original_mnemonic, i.unit, i.value, i.descr, getattr(i, "data", None), i.mnemonic) for i in sec0])
+        ci0, recs = _READ3[root]
+        sec = SectionItems()
+        sec.mnemonic_transforms = ci0
+        factory = HeaderItem
+        for (typ, orig, unit, value, descr, data, session) in recs:
+            it = CurveItem(orig, unit, value, descr, np.array(data)) if typ is CurveItem else HeaderItem(orig, unit, value, descr)
+            list.append(sec, it)
+            it.set_session_mnemonic_only(session)
+            factory = typ
+        return sec, None, factory
     if root.endswith("-pickled") or root.endswith("-deepcopied"):
         import copy
         import pickle
